@@ -161,9 +161,10 @@ pub fn imm_for(v: i64, size: u8) -> Operand {
         _ => Operand::Imm(v),
     }
 }
-/// a shift count / rounding mode byte: zero-extended imm8
+/// a shift count / rounding mode byte: the imm8 bit pattern, zero-extended. Like imm_for, a requested value is
+/// identified with its 8-bit pattern (-1 and 255 are the same imm8; the hardware masks a shift count to 5/6 bits anyway).
 pub fn imm_u8_for(v: i64) -> Operand {
-    if v >= 0 && v <= 255 { Operand::Imm(v) } else { Operand::Unencodable }
+    if v >= -128 && v <= 255 { Operand::Imm((v as u8) as i64) } else { Operand::Unencodable }
 }
 
 // ------------------------------------------------------------------------------------------------
